@@ -167,6 +167,38 @@ pub fn run(tier: Tier) -> i32 {
                 n_err += 1;
             }
         }
+        // several base keys in one file, each in one of 6 states: what happens to one group must not change the others
+        {
+            let bases = ["a", "b", "c"];
+            for t in vmodel::enumerate::tuples(6, 3) {
+                let mut e = vec![("pad".to_string(), st("[pad]"))];
+                for (bi, st_) in t.iter().enumerate() {
+                    let b = bases[bi];
+                    let mut add = |ordinal: bool, f: Form| e.push((form_key(b, ordinal, f), form_val(b, f)));
+                    match st_ {
+                        0 => {}
+                        1 => add(false, Form::One),
+                        2 => add(false, Form::Other),
+                        3 => {
+                            add(false, Form::One);
+                            add(false, Form::Two);
+                        }
+                        4 => {
+                            add(false, Form::One);
+                            add(false, Form::Other);
+                        }
+                        _ => {
+                            add(true, Form::One);
+                            add(true, Form::Other);
+                        }
+                    }
+                }
+                let mut p = Project::new(Config::simple(l, &[l]));
+                p.set_file(None, l, e);
+                jobs.push(Job { p, counts: Some(vec![Num::I(0), Num::I(1), Num::I(2)]), part: "several-groups", cases: 3, nontriv: 1 });
+                n_err += 1;
+            }
+        }
         // plural forms inside subkeys and namespaces; suffix look-alikes that are not forms
         let mut p = Project::new(Config::simple(l, &[l]).with_namespaces(&["a", "b"]));
         p.set_file(Some("a"), l, vec![("g".into(), Val::Sub(vec![("h".into(), Val::Sub(plural_entries(l, &[31, 3])))])), ("select_one".into(), st("[lone]"))]);
@@ -211,7 +243,7 @@ pub fn run(tier: Tier) -> i32 {
         rep.sample(json!({"part": jobs[j].part, "project_head": vmodel::report::truncate(&jobs[j].p.describe(), 300)}));
     }
     let mut cov = serde_json::Map::new();
-    cov.insert("rule".into(), json!(format!("locales {locales:?}; for every non-empty subset of {{zero,one,two,few,many}} + other, cardinal and ordinal (62 keys per locale): merged tree evaluated under counts 0..=200,10^3,10^6,10^6+1,10^9 against ICU4X category_for called by the harness; UnusedForm diagnostics compared as a multiset with categories(); parse-time selection through `$t(k,{{count:n}})` for every such n plus decimals 0.5,1.0,1.5,2.0,0.0,21.0 and a renamed count, each locale as default; error side: every (cardinal form, ordinal form) pair under one base, with and without a mergeable set; every subset with a plain key of the base name; every subset without _other (keys must stay as written); forms inside subkeys/namespaces and look-alike suffixes")));
+    cov.insert("rule".into(), json!(format!("locales {locales:?}; for every non-empty subset of {{zero,one,two,few,many}} + other, cardinal and ordinal (62 keys per locale): merged tree evaluated under counts 0..=200,10^3,10^6,10^6+1,10^9 against ICU4X category_for called by the harness; UnusedForm diagnostics compared as a multiset with categories(); parse-time selection through `$t(k,{{count:n}})` for every such n plus decimals 0.5,1.0,1.5,2.0,0.0,21.0 and a renamed count, each locale as default; error side: every (cardinal form, ordinal form) pair under one base, with and without a mergeable set; every subset with a plain key of the base name; every subset without _other (keys must stay as written); three base keys in one file each in one of 6 states (absent, lone _one, lone _other, _one+_two, _one+_other, ordinal _one+_other): 216 files; forms inside subkeys/namespaces and look-alike suffixes")));
     cov.insert("exhaustive".into(), json!(true));
     cov.insert("outcome_classes".into(), json!(*outcomes.lock().unwrap()));
     cov.insert("key_locale_comparisons".into(), json!(*keys_total.lock().unwrap()));
